@@ -49,6 +49,53 @@ def sany(module: Path) -> None:
         raise TlcFailure(f"SANY rejected {module}:\n{r.stdout[-3000:]}")
 
 
+def _cpu_ticks(pid: int) -> int:
+    try:
+        f = open(f"/proc/{pid}/stat").read().rsplit(")", 1)[1].split()
+        return int(f[11]) + int(f[12])
+    except (OSError, IndexError, ValueError):
+        return -1
+
+
+def _run_watched(cmd: list[str], cwd, env: dict, timeout: int, meta: Path, stall: int = 240, attempts: int = 2) -> str:
+    """Run TLC, watching the JVM: one that stops consuming CPU for `stall` seconds is hung (seen once with dozens of JVMs on the machine: a
+    TLC process sat at 8 CPU-seconds for 25 minutes) - it is killed and the run is repeated once.  A hung or timed-out TLC is a machinery
+    failure (exit 2), never a verdict."""
+    last_err = ""
+    for attempt in range(attempts):
+        so, se = meta / f"tlc-{attempt}.out", meta / f"tlc-{attempt}.err"
+        meta.mkdir(parents=True, exist_ok=True)
+        with open(so, "w") as fo, open(se, "w") as fe:
+            p = subprocess.Popen(cmd, cwd=cwd, stdout=fo, stderr=fe, env=env)
+            t0 = time.time()
+            ticks, since = _cpu_ticks(p.pid), time.time()
+            why = None
+            while True:
+                try:
+                    p.wait(timeout=5)
+                    break
+                except subprocess.TimeoutExpired:
+                    pass
+                now = _cpu_ticks(p.pid)
+                if now != ticks:
+                    ticks, since = now, time.time()
+                if time.time() - since > stall:
+                    why = f"no CPU consumed for {stall}s"
+                elif time.time() - t0 > timeout:
+                    why = f"timed out after {timeout}s"
+                if why:
+                    p.kill()
+                    p.wait()
+                    break
+        out = so.read_text(errors="replace") + se.read_text(errors="replace")
+        if why is None:
+            return out
+        last_err = why
+        if why.startswith("timed out"):
+            break
+    raise TlcFailure(f"TLC {last_err}: {' '.join(cmd)}")
+
+
 def run_tlc(
     module: str | Path,
     cfg: str | Path,
@@ -89,13 +136,9 @@ def run_tlc(
     e.update(env or {})
     t0 = time.time()
     try:
-        r = subprocess.run(cmd, cwd=module.parent, capture_output=True, text=True, timeout=timeout, env=e)
-    except subprocess.TimeoutExpired as ex:
-        rmtree(meta)
-        raise TlcFailure(f"TLC timed out after {timeout}s: {' '.join(cmd)}") from ex
+        out = _run_watched(cmd, module.parent, e, timeout, meta)
     finally:
         rmtree(meta)
-    out = r.stdout + r.stderr
     res = TlcResult(ok=False, wall_s=round(time.time() - t0, 2), cmd=" ".join(cmd[cmd.index("tlc2.TLC"):]), out=out)
     for m in _STATS.finditer(out):
         res.transitions, res.distinct = int(m.group(1)), int(m.group(2))
